@@ -2,6 +2,7 @@
 import sys
 
 from sa import report, rules_sibling as RSB, rules_read as RD, rules_opts as RO, rules_order as RO2
+from sa import rules_state as RSTATE
 from sa import rules_extra as RX
 from sa import rules_grammar as RG
 from sa import rules_reader as RRD
@@ -36,6 +37,7 @@ def run(ctx, repo):
     RRD.r_incremental_decode(ctx, repo)
     RG.r_parser_grammar(ctx, repo, max_len=8 if ctx.tier == 'thorough' else 6)
 
+    RSTATE.r_directives_reset(ctx, repo)
 
 if __name__ == '__main__':
     sys.exit(report.main('C06', 'other', run))
